@@ -47,8 +47,37 @@ def run(lines, out, args):
                     classImplementsOnly(classes[int(f[1])], *[ifs[x] for x in a])
             elif f[0] == "first":
                 classImplementsFirst(classes[int(f[1])], ifs[a[0]])
+            elif f[0] == "cprov":
+                # `@provider(...)` / directlyProvides on a CLASS object: what the class object itself provides.  Judged here, on
+                # the real objects: the class object then provides exactly the closure of what was named (and Interface); what the
+                # class IMPLEMENTS and what its instances, subclasses and their instances provide is untouched
+                from zope.interface import provider
+                C = classes[int(f[1])]
+                watch = [("implementedBy(C%s)" % k, (lambda K=K: implementedBy(K))) for k, K in classes.items()
+                         if k and (K is C or issubclass(K, C) or issubclass(C, K))] + \
+                        [("providedBy(o%s)" % k, (lambda o=o: providedBy(o))) for k, o in objs.items()]
+                before = [(n_, tuple(g()) ) for n_, g in [(n_, (lambda fn=fn: fn().flattened())) for n_, fn in watch]]
+                if len(f) > 2 and f[2] == "d":
+                    provider(*[ifs[x] for x in a])(C)
+                else:
+                    directlyProvides(C, *[ifs[x] for x in a])
+                after = [(n_, tuple(fn().flattened())) for n_, fn in watch]
+                want = {Interface}
+                for x in a:
+                    want |= set(ifs[x].__iro__)
+                notes = []
+                if set(providedBy(C).flattened()) != want or not all(ifs[x].providedBy(C) for x in a):
+                    notes.append("the class object provides %s" % sorted(i.__name__ for i in providedBy(C).flattened()))
+                if before != after:
+                    notes.append("changed: " + ",".join(n_ for (n_, b_), (_, a_) in zip(before, after) if b_ != a_))
+                if notes:
+                    got = "ok CPROV-BAD " + "; ".join(notes)
             elif f[0] == "dp":
-                directlyProvides(objs[int(f[1])], *[ifs[x] for x in a])
+                if len(f) > 2 and f[2] == "d":
+                    from zope.interface import provider
+                    provider(*[ifs[x] for x in a])(objs[int(f[1])])
+                else:
+                    directlyProvides(objs[int(f[1])], *[ifs[x] for x in a])
             elif f[0] == "also":
                 alsoProvides(objs[int(f[1])], *[ifs[x] for x in a])
             elif f[0] == "nl":
